@@ -37,6 +37,11 @@ CHECKS = {
    text="Seeded operation sequences on the real tbtree under an option swarm (minimal node sizes forcing deep trees and splits, 1-slot cache, flush/sync/buffer thresholds, snapshot limits, compaction threshold, tiny files, snapshot renewal period on the simulated clock): bulk inserts (auto and explicit timestamps), IncreaseTs, flushes with cleanup, Sync, Compact, up to 3 open snapshots read at arbitrary later points, readers with random seek/end/prefix/direction/offset specs, Get, GetBetween, History (both directions, offset/limit), GetWithPrefix, close/reopen and crash/reopen. Model: key -> versions, one immutable copy per logical time; a snapshot must keep answering from the state of the logical time it reports (>= the time it was asked to include).",
    note="ReaderSpec.Offset only without history; ReadBetween/IncludeHistory readers are not generated. After the first crash recovery has been validated, anomalies are attributed to the recorded stale-log-tail finding (see known_findings.json).",
    technique="deterministic simulation: seeded op/crash sequences vs multi-version map model with per-timestamp states"),
+ "C09": dict(
+   level="fault_enumeration", design="DESIGN.md §7 C09",
+   text="A small store (2-10 transactions; plain/embedded values, 1-3 value logs, tiny files so that records span chunks, tx metadata, deletes/expirations) is built inside the simulation and closed; then 1-3 bit flips at seeded offsets inside the data region of the tx-log and value-log files are applied to a copy (at rest), or bits are flipped in the bytes returned by file reads while the store is open (live, through the read hook), with and without forcing an index rebuild. Every integrity-checked read is then run under a panic catcher: Open, ReadTx, ReadValue, ReadTxHeader, ExportTx (compared logically with the pristine export), TxReader scan, DualProof, Get+Resolve after indexing. Oracle: error or exactly the committed content; never other data, never a panic, bounded (simulated) time. Sampling of the flip space (6 cases per store in quick, 20 in thorough), not exhaustive.",
+   note="Compressed value logs are excluded (a corrupted compressed length makes the reader allocate up to 4 GiB; observed as a hang while building C03, recorded in DESIGN.md). Header/metadata bytes of the files are not flipped (they do not hold committed transactions).",
+   technique="deterministic simulation: seeded bit-flip fault enumeration (at rest and at read time) vs pristine ledger"),
 }
 
 NOT_APPLICABLE = [
